@@ -12,11 +12,15 @@ import json, os, random, concurrent.futures
 PROP = "C06"
 
 # ------------------------------------------------------------------ alphabets (UTF-16 code units)
-A_ASCII = [0x61, 0x62, 0x41, 0x42, 0x78, 0x30, 0x31, 0x20, 0x09, 0x2d, 0x22, 0x5c, 0x0a, 0x01, 0x2e, 0x28]
+A_ASCII = [0x61, 0x62, 0x41, 0x42, 0x78, 0x30, 0x31, 0x20, 0x09, 0x2d, 0x22, 0x5c, 0x0a, 0x01, 0x2e, 0x28, 0x7f, 0x00]
 A_LATIN = [0xe9, 0xdf, 0xa0, 0xff, 0x80, 0xb5]
-A_BMP = [0x3a3, 0x3c3, 0x3c2, 0x130, 0x2028, 0x3000, 0xfeff, 0xfffd, 0x4e2d, 0x301, 0x1e9e, 0x17f, 0x212a]
+A_BMP = [0x3a3, 0x3c3, 0x3c2, 0x130, 0x2028, 0x3000, 0xfeff, 0xfffd, 0x4e2d, 0x301, 0x1e9e, 0x17f, 0x212a,
+         0x7ff, 0x800, 0xd7ff, 0xe000, 0xfffe, 0xffff]
 A_ASTRAL = [(0xd83d, 0xde00), (0xd801, 0xdc00), (0xd801, 0xdc28), (0xdbff, 0xdfff), (0xd800, 0xdc00)]
 A_LONE = [0xd800, 0xdbff, 0xdc00, 0xdfff, 0xd83d, 0xde00]
+# code points at the edges of every encoding class (1/2/3/4-byte UTF-8, BMP/astral, surrogate block, specials):
+# U+007F/0080, U+07FF/0800, U+D7FF, U+E000, U+FFFD, U+FFFE, U+FFFF, U+10000, U+10FFFF
+A_BOUNDARY = [0x7f, 0x80, 0x7ff, 0x800, 0xd7ff, 0xe000, 0xfffd, 0xfffe, 0xffff, (0xd800, 0xdc00), (0xdbff, 0xdfff)]
 
 SIG_EXPORT = "export-imported-invalid-utf8-returns-original-bytes"
 SIG_LONE = "lone-surrogate-replaced-by-fffd:"
@@ -113,6 +117,8 @@ class Gen:
             p += r.sample(A_BMP, r.randint(1, 2))
         if r.random() < 0.5:
             p.append(r.choice(A_ASTRAL))
+        if r.random() < 0.55:
+            p += r.sample(A_BOUNDARY, r.randint(1, 2))
         if r.random() < 0.35:
             p += r.sample(A_LONE, r.randint(1, 2))
         return p
@@ -124,6 +130,12 @@ class Gen:
         while len(out) < n:
             c = r.choice(pal)
             out += list(c) if isinstance(c, tuple) else [c]
+        if out and r.random() < 0.2:
+            # the same unit at both ends (a lone surrogate or boundary unit when the palette has one)
+            special = [c for c in pal if not isinstance(c, tuple) and (c in A_LONE or c in A_BOUNDARY)]
+            if special:
+                e = r.choice(special)
+                out = [e] + out + [e]
         return out
 
     def leaf_for(self, u, avoid=None):
@@ -247,7 +259,8 @@ def gen_bytes(r):
     if k < 0.3:
         return bytes(r.choice(b"abAB01 x") for _ in range(n))
     pieces, cur = [], 0
-    pool = ["a", "b", "0", "é", "Σ", "中", "\U0001f600", "�", "﻿", "ÿ"]
+    pool = ["a", "b", "0", "é", "Σ", "中", "\U0001f600", "\ufffd", "\ufeff", "ÿ",
+            "\x7f", "\u0080", "\u07ff", "\u0800", "\ud7ff", "\ue000", "\ufffe", "\uffff", "\U00010000", "\U0010ffff"]
     while cur < n:
         p = r.choice(pool).encode("utf-8")
         pieces.append(p)
@@ -269,7 +282,7 @@ def gen_units(r):
         if k < 0.35:
             out.append(r.choice(A_ASCII))
         else:
-            c = r.choice(A_ASCII + A_ASCII + A_LATIN + A_BMP + A_ASTRAL + A_LONE)
+            c = r.choice(A_ASCII + A_ASCII + A_LATIN + A_BMP + A_ASTRAL + A_LONE + A_BOUNDARY)
             out += list(c) if isinstance(c, tuple) else [c]
     return out
 
@@ -354,7 +367,7 @@ def gen_sequence(r, nops):
                 elif j < 0.65:
                     lines.append("sbwsub %d %d %d %d" % (sb, reg(), r.choice([0, 0, 1, 2, 4]), r.choice([0, 1, 2, 3, 6, 99])))
                 elif j < 0.85:
-                    c = r.choice(A_ASCII + A_LATIN + A_BMP + A_LONE + [0x1f600, 0x10400, 0x10ffff, 0x10000, 0x7f, 0x80, 0xffff])
+                    c = r.choice(A_ASCII + A_LATIN + A_BMP + A_LONE + [0x1f600, 0x10400, 0x10ffff, 0x10000, 0x7f, 0x80, 0x7ff, 0x800, 0xd7ff, 0xe000, 0xfffd, 0xfffe, 0xffff])
                     lines.append("sbwr %d %x" % (sb, c))
                 else:
                     lines.append("sbw8 %d %s" % (sb, hx(hexb(gen_bytes(r)))))
